@@ -308,6 +308,132 @@ int main(int argc, char** argv) {
     }
   }, {"executions", "schedules_with_steals", "tasks", "choice_points", "capped"});
 
+  // ------------------------------------------------------------------ size literals that kSeqThreshold does not control
+  // unique() works in chunks of MAX_BUFFER_SIZE = 1<<16 elements; the chunk seam is part of the input-length space
+  // ("for every input length").  Inputs: lengths around one and two seams, base content with runs of equal values,
+  // and EVERY assignment of a 3-letter alphabet to the 4 elements straddling each seam; schedules within bound 1.
+  {
+    const std::vector<size_t> LENS = thorough ? std::vector<size_t>{65536, 65537, 65538, 65540, 131072, 131073, 131075, 200000}
+                                              : std::vector<size_t>{65536, 65537, 65539, 131073};
+    const int WIN = 81;  // 3^4 window contents
+    const Prim* uq = nullptr;
+    for (auto& p : P)
+      if (std::string(p.name) == "unique") uq = &p;
+    R.phase("unique-chunk-seams", LENS.size() * WIN * 2, 2, [&](uint64_t idx, Ctx& c) {
+      int ci = idx % 2;
+      int w = (idx / 2) % WIN;
+      size_t n = LENS[idx / 2 / WIN];
+      std::vector<int> in(n);
+      for (size_t i = 0; i < n; ++i) in[i] = (int)((i / 3) % 3);  // runs of three equal values
+      std::vector<int> win = inputOf(w, 4);
+      for (size_t seam = 65536; seam + 2 <= n + 1 && seam < n; seam += 65536)
+        for (int k = 0; k < 4; ++k)
+          if (seam - 2 + k < n) in[seam - 2 + k] = win[k];
+      std::string name = "unique n=" + std::to_string(n) + " seam-window=[" + ser(win) + "] C=" + std::to_string(ci ? 4 : 2);
+      c.describe(name);
+      std::string expect = std::to_string(hash_str(uq->f(in, false)));
+      vx::Explorer ex;
+      vx::Config cfg;
+      cfg.bound = 1;
+      cfg.freeCost = 0;
+      cfg.workers = 2;
+      cfg.concurrency = ci ? 4 : 2;
+      cfg.timeout = 120;
+      cfg.inProcess = true;
+      cfg.maxExec = thorough ? 4000 : 400;
+      auto body = [&]() {
+        kSeqThreshold = 10000;  // the library's own value: the seam logic is what is being exercised
+        verif::par_threshold = 0;
+        return std::to_string(hash_str(uq->f(in, true)));
+      };
+      bool reported = false;
+      vx::Stats st = ex.explore(cfg, body, [&](const vx::Exec& e) {
+        if (e.outcome != expect && !reported) {
+          reported = true;
+          std::vector<int> v = in;
+          size_t got = unique(PAR, v.begin(), v.end()) - v.begin();
+          std::vector<int> r = in;
+          size_t want = std::unique(r.begin(), r.end()) - r.begin();
+          c.viol("prim:unique n=" + std::to_string(n) + " seam-window=[" + ser(win) + "]", name,
+                 "schedule " + e.scheduleStr() + ": unique(Par) keeps " + std::to_string(got) + " elements, std::unique keeps " + std::to_string(want));
+        }
+        return true;
+      });
+      c.count("executions", st.executions);
+      c.count("schedules_with_steals", st.withSteals);
+      c.count("tasks", st.tasks);
+      c.count("choice_points", st.choicePoints);
+      if (st.capped) c.count("schedule_cap_hit");
+      c.distinct(hash_str(name));
+      if (st.withSteals) c.nontrivial(hash_str(name));
+      if (idx % 97 == 0) c.sample(name + ": " + std::to_string(st.executions) + " schedules");
+    }, {"executions", "schedules_with_steals", "tasks", "choice_points", "schedule_cap_hit"});
+  }
+
+  // ------------------------------------------------------------------ radix sort: blocks large enough for the parallel histogram
+  // With kSeqThreshold = 2 and max_concurrency 1 a 9..12-element uint64 sort is cut into blocks of n/4 >= 2 elements whose
+  // histogram is itself a parallel_for over a tbb::combinable (one partial histogram per thread that took a chunk), merged
+  // afterwards: the lengths 0..maxLen of phase "primitives" never reach that code.  All contents over a 2-letter alphabet.
+  {
+    const std::vector<int> LENS = thorough ? std::vector<int>{8, 9, 10, 11, 12, 13} : std::vector<int>{9, 12};
+    std::vector<std::pair<int, uint32_t>> in2;
+    for (int len : LENS)
+      for (uint32_t code = 0; code < (1u << len); ++code) in2.push_back({len, code});
+    R.phase("radix-blocks", in2.size(), 16, [&](uint64_t idx, Ctx& c) {
+      int len = in2[idx].first;
+      uint32_t code = in2[idx].second;
+      static const uint64_t MAP[2] = {(1ull << 33) + 7, 5};
+      std::vector<uint64_t> in(len);
+      std::string bits;
+      for (int i = 0; i < len; ++i) {
+        in[i] = MAP[(code >> i) & 1] + (uint64_t(i) << 48);  // high bits make every element distinct: stability and loss are both visible
+        bits += char('0' + ((code >> i) & 1));
+      }
+      // sorted by the low 48 bits only would need a comparator; here the full value is the key, the tag just makes a lost
+      // or duplicated element visible.  A second pass sorts keys WITHOUT tags (many equal keys, skip logic of prefixSum).
+      std::string name = "stable_sort(uint64,radix) n=" + std::to_string(len) + " in=" + bits + " thr=2 C=1 W=2";
+      c.describe(name);
+      auto run = [&](bool par, bool tagged) {
+        std::vector<uint64_t> v(len);
+        for (int i = 0; i < len; ++i) v[i] = tagged ? in[i] : MAP[(code >> i) & 1];
+        if (par) stable_sort(PAR, v.data(), v.data() + v.size());
+        else std::stable_sort(v.begin(), v.end());
+        return ser(v);
+      };
+      std::string expect = run(false, true) + "|" + run(false, false);
+      vx::Explorer ex;
+      vx::Config cfg;
+      cfg.bound = (thorough || len <= 9) ? 2 : 1;
+      cfg.freeCost = 0;
+      cfg.workers = 2;
+      cfg.concurrency = 1;
+      cfg.timeout = 600;
+      cfg.inProcess = true;
+      cfg.maxExec = thorough ? 400000 : 20000;
+      auto body = [&]() {
+        kSeqThreshold = 2;
+        verif::par_threshold = 0;
+        return run(true, true) + "|" + run(true, false);
+      };
+      bool reported = false;
+      vx::Stats st = ex.explore(cfg, body, [&](const vx::Exec& e) {
+        if (e.outcome != expect && !reported) {
+          reported = true;
+          c.viol("prim:radix n=" + std::to_string(len) + " in=" + bits, name, "schedule " + e.scheduleStr() + " gives " + e.outcome + " expected " + expect);
+        }
+        return true;
+      });
+      c.count("executions", st.executions);
+      c.count("schedules_with_steals", st.withSteals);
+      c.count("tasks", st.tasks);
+      c.count("choice_points", st.choicePoints);
+      if (st.capped) c.count("schedule_cap_hit");
+      c.distinct(hash_str(name));
+      if (st.withSteals) c.nontrivial(hash_str(name));
+      if (idx % 997 == 0) c.sample(name + ": " + std::to_string(st.executions) + " schedules, " + std::to_string(st.tasks / std::max<uint64_t>(1, st.executions)) + " tasks each");
+    }, {"executions", "schedules_with_steals", "tasks", "choice_points", "schedule_cap_hit"});
+  }
+
   // ------------------------------------------------------------------ lock-free containers (engine C)
   // every interleaving (at the library's atomic operations = hook H5 yield points) of 2-3 threads
   // within the preemption bound; oracle = sequential structure on the same operations.
